@@ -182,7 +182,7 @@ func (fe *FnExec) localEnv(st *State, old *State) *Env {
 	}
 	best := map[string]*ssa.Alloc{}
 	for a := range st.locals {
-		if a.Comment == "" {
+		if a.Comment == "" || a.Parent() != fe.Fn {
 			continue
 		}
 		if cur, ok := best[a.Comment]; !ok || a.Pos() < cur.Pos() {
